@@ -124,17 +124,40 @@ func simpleMatches(rules []string, requests []string, matchFn ...func(m matcher)
 	if matchAll {
 		return true
 	}
+	if len(filtered) == 0 {
+		return false
+	}
 
+	// filterRules returns either positive matchers only or reversed matchers only.
+	// A reversed list matches exactly what the corresponding positive list
+	// does not match, so evaluate the positive form of every entry and
+	// negate the result once.
+	reverse := filtered[0].reverse
+	matched := false
 	for _, v := range filtered {
-		for _, request := range requests {
-			if v.match(request) {
-				return true
-			}
+		if positiveMatches(matcher{value: v.value}, requests, matchFn...) {
+			matched = true
+			break
 		}
-		for _, match := range matchFn {
-			if match(v) {
-				return true
-			}
+	}
+	if reverse {
+		return !matched
+	}
+	return matched
+}
+
+func positiveMatches(m matcher, requests []string, matchFn ...func(m matcher) bool) bool {
+	if m.value == MatchAll {
+		return true
+	}
+	for _, request := range requests {
+		if m.match(request) {
+			return true
+		}
+	}
+	for _, match := range matchFn {
+		if match(m) {
+			return true
 		}
 	}
 	return false
